@@ -491,7 +491,14 @@ func (o *oracles) checkConverters(final bool) {
 				key := fmt.Sprintf("conv/%s/%d/%s", cn, id, d)
 				sig, seen := o.firstSeen[key]
 				if !seen {
-					sig = "stale-output@" + o.trigger() + o.onDemandNote
+					trig := o.trigger()
+					if o.convJobActive && (trig == "api:ConvCreate" || trig == "api:ConvWrite") {
+						// a converter that comes back while a job that still holds its former
+						// self is running loads what that job has stored so far: the same
+						// output "of a job, not yet judged by its completion" as @body:convert
+						trig = "body:convert"
+					}
+					sig = "stale-output@" + trig + o.onDemandNote
 					o.firstSeen[key] = sig
 				}
 				if o.violate("convert", sig, fmt.Sprintf("converter %s: cached output of stream %d was made for payload %s, the stream's current payload is %s", cn, id, d, digest[id])) {
